@@ -1516,8 +1516,9 @@ func leadTweak(v any, x uint64) (any, bool) {
 }
 
 // setBlobCount finds the block contents inside a proposal (a struct with fields Blobs and KZGProofs) and makes it
-// carry n blobs and n proofs (false: the value has none).
-func setBlobCount(v any, n int) bool {
+// carry n blobs and n*per proofs (false: the value has none). per = 1 up to electra (one proof per blob); fulu block
+// contents carry the cell proofs, CELLS_PER_EXT_BLOB = 128 per blob, so there proofs and blobs differ in number.
+func setBlobCount(v any, n, per int) bool {
 	done := false
 	var walk func(rv reflect.Value, depth int)
 	walk = func(rv reflect.Value, depth int) {
@@ -1532,7 +1533,11 @@ func setBlobCount(v any, n int) bool {
 		case reflect.Struct:
 			bl, pr := rv.FieldByName("Blobs"), rv.FieldByName("KZGProofs")
 			if bl.IsValid() && pr.IsValid() && bl.Kind() == reflect.Slice && pr.Kind() == reflect.Slice && bl.CanSet() && pr.CanSet() {
-				for _, f := range []reflect.Value{bl, pr} {
+				for fi, f := range []reflect.Value{bl, pr} {
+					n := n
+					if fi == 1 {
+						n *= per
+					}
 					nf := reflect.MakeSlice(f.Type(), n, n)
 					for i := 0; i < n; i++ {
 						if f.Len() > 0 {
@@ -1541,6 +1546,9 @@ func setBlobCount(v any, n int) bool {
 						// make the entries pairwise different
 						if e := nf.Index(i); e.Kind() == reflect.Array && e.Len() > 0 && e.Index(0).Kind() == reflect.Uint8 {
 							e.Index(0).SetUint(uint64(i + 1))
+							if e.Len() > 1 {
+								e.Index(1).SetUint(uint64((i + 1) >> 8))
+							}
 						}
 					}
 					f.Set(nf)
@@ -2123,22 +2131,22 @@ func gen(a hx.Args, e *env, do func(string)) {
 		// unblinded deneb+ proposals carry their blobs: the count is bounded by the chain's blob schedule (6 in deneb, 9 in
 		// electra, raised by the BPO forks of fulu to 15 and 21), not by the codec; such values are only round-tripped
 		// (they are megabytes: no mutation sweep over them)
-		var blobCounts []int
+		var blobCounts [][2]int // blobs, proofs per blob
 		if (k.typ == "VersionedSignedProposal" || k.typ == "VersionedProposal") && strings.HasSuffix(k.name, "/full") {
 			switch {
 			case strings.Contains(k.name, "/deneb/"):
-				blobCounts = []int{6}
+				blobCounts = [][2]int{{6, 1}}
 			case strings.Contains(k.name, "/electra/"):
-				blobCounts = []int{9}
+				blobCounts = [][2]int{{9, 1}}
 			case strings.Contains(k.name, "/fulu/"):
-				blobCounts = []int{10, 15, 21}
+				blobCounts = [][2]int{{10, 1}, {15, 1}, {21, 1}, {2, 128}, {9, 128}}
 			}
 		}
 		for r := 0; r < reps+nlead+len(blobCounts); r++ {
 			v := k.gen()
 			big := false
 			if r >= reps+nlead {
-				if !setBlobCount(v, blobCounts[r-reps-nlead]) {
+				if bc := blobCounts[r-reps-nlead]; !setBlobCount(v, bc[0], bc[1]) {
 					continue
 				}
 				big = true
